@@ -28,31 +28,28 @@ open Pdt Pdt.Reader Pdt.Represent Pdt.Blocks Pdt.Grid
 
 /-! ## 0. the writer / reader skeleton translated from the source, pinned -/
 
-/-- what `_append_table_to_openpyxl_worksheet` appends, in source order: header, destinations, then either the
-    `name, unit, values…` lines or names / units / represented rows, then the empty separator rows -/
+/-- what `_append_table_to_openpyxl_worksheet` appends, per branch in source order (local names blanked): header,
+    destinations, …, the empty separator row; transposed: `name, unit, values…` lines; row-wise: names, units, then
+    the represented rows.  The header and the destinations cell -/
 theorem append_order_pinned :
-    Gen.excelAppended = ["[_table_header(table)]", "[_table_destinations(table)]",
-      "[str(col.name), str(col.unit)] + list(_represent_col_elements(col.values, col.unit, na_rep))",
-      "table.column_names", "units", "_represent_row_elements(row, units, na_rep)", "[]"] ∧
-    Gen.excelHeaders = ["f'**{table.name}*'", "f'**{table.name}'"] ∧
-    Gen.excelHeadersTest = ["table.metadata.transposed"] ∧
-    Gen.excelDest = ["' '.join((str(x) for x in table.metadata.destinations))"] := by decide
+    Gen.excelAppended = [" => [_table_header(_)] | [_table_destinations(_)] | []",
+      "_.metadata.transposed => [str(_.name), str(_.unit)] + list(_represent_col_elements(_.values, _.unit, _))",
+      "not _.metadata.transposed => _.column_names | _ | _represent_row_elements(_, _, _)"] ∧
+    Gen.excelHeaders = ["_.metadata.transposed => f'**{_.name}*'", "not _.metadata.transposed => f'**{_.name}'"] ∧
+    Gen.excelDest = ["' '.join((str(_) for _ in _.metadata.destinations))"] := by decide
 
-/-- the index arithmetic of `_style_tables_in_worksheet` that `Grid.styleTable` / `Grid.styleTargets` mirror -/
+/-- the assignments of `_style_tables_in_worksheet` that `Grid.styleTable` / `Grid.styleTargets` mirror (as a
+    sorted multiset, local names blanked): the slice `rows[i:i + r + h]` cut to `r[0:c]`, `table_rows[0]`, `[1]`,
+    the guarded `[2]` / `[3]`, `[4:]`, the transposed `t[0]` / `t[1]` / `t[2:]`, the swap, and
+    `i_start += true_num_rows + num_header_rows + sep_lines`; the integer constants are 0, 0, 2, 2 and the width 20 -/
 theorem style_arithmetic_pinned :
-    Gen.excelInts = [("num_header_rows", 2), ("num_name_unit_rows", 2)] ∧
-    Gen.excelExprs = [
-      ("column_name_cells", ["[t[0] for t in table_rows[2:]]", "table_rows[2] if len(table_rows) > 2 else []"]),
-      ("column_unit_cells", ["[t[1] for t in table_rows[2:]]", "table_rows[3] if len(table_rows) > 3 else []"]),
-      ("destination_cells", ["table_rows[1]"]),
-      ("i_start +=", ["true_num_rows + num_header_rows + sep_lines"]),
-      ("table_name_cells", ["table_rows[0]"]),
-      ("table_rows", ["[r[0:true_num_cols] for r in rows[i_start:i_start + true_num_rows + num_header_rows]]"]),
-      ("true_num_cols", ["num_cols", "rows if transposed else cols"]),
-      ("true_num_cols, true_num_rows", ["(true_num_rows, true_num_cols)"]),
-      ("true_num_rows", ["num_rows + num_name_unit_rows"]),
-      ("value_cells", ["[t[2:] for t in table_rows[2:]]", "table_rows[4:]"])] ∧
-    Gen.excelDims = ["(len(t.df), len(t.df.columns), t.metadata.transposed)"] := by decide
+    Gen.excelInts = [0, 0, 2, 2, 20] ∧
+    Gen.excelStyleStmts = ["_ += _ + _ + _",
+      "_ = [(_, 'table_name'), (_, 'destinations'), (_, 'column_names'), (_, 'units'), (chain.from_iterable(_), 'values')]",
+      "_ = [_ for _ in _.iter_rows()]", "_ = [_[0:_] for _ in _[_:_ + _ + _]]", "_ = [_[0] for _ in _[2:]]",
+      "_ = [_[1] for _ in _[2:]]", "_ = [_[2:] for _ in _[2:]]", "_ = _", "_ = _ + _", "_ = _ if _ else _",
+      "_ = _[0]", "_ = _[1]", "_ = _[2] if len(_) > 2 else []", "_ = _[3] if len(_) > 3 else []", "_ = _[4:]",
+      "_ = max(_, _)", "_ = {'alignment': {'horizontal': 'center'}}", "_, _ = (_, _)"] := by decide
 
 /-- the style loop assigns `font`, `fill`, `alignment` — never a value; nothing in the module assigns `.value` -/
 theorem style_writes_pinned :
@@ -60,9 +57,9 @@ theorem style_writes_pinned :
 
 /-- sheets are written in the order of the mapping and read in workbook order; the pattern is applied with `match` -/
 theorem sheet_loops_pinned :
-    Gen.excelWriteLoops = ["tables", "tabs"] ∧ Gen.excelReadIters = ["wb.worksheets"] ∧
-    Gen.excelReadYields = ["(ws.title, ws.iter_rows(values_only=True))"] ∧
-    Gen.excelPatternCalls = ["sheet_name_pattern.match(name)"] := by decide
+    Gen.excelWriteLoops = ["_"] ∧ Gen.excelReadIters = ["_.worksheets"] ∧
+    Gen.excelReadYields = ["(_.title, _.iter_rows(values_only=True))"] ∧
+    Gen.excelPatternCalls = ["sheet_name_pattern.match(_)"] := by decide
 
 theorem represent_consts_pinned : Gen.sealant = "-".toList ∧ Gen.naRepDefault = "-".toList := by decide
 
